@@ -21,6 +21,7 @@ mirror.GenError = GenError
 FAMILY = {
     "proto": "proto",
     "wt": "wt",
+    "mquic": "wt",
 }
 
 
